@@ -425,7 +425,7 @@ def emit_impl_header(file, pattern, rules):
 
 LOOP_KW = ('loop', 'while', 'for')
 CLAUSE_KW = ('tags', 'rules', 'attr', 'ret', 'requires', 'ensures', 'decreases', 'prologue',
-             'loop', 'loopbody', 'after', 'end', 'safety')
+             'loop', 'loopbody', 'after', 'end', 'safety', 'abstract', 'rename', 'fnname')
 
 
 class FnSpec:
@@ -442,6 +442,7 @@ class FnSpec:
         self.loops = {}       # n -> {'label':..., 'invariant':[(tags,text)], 'ensures':[], 'decreases':[], 'body':text, 'after':text}
         self.canary = True
         self.line = 0
+        self.abstracts = []   # (kind 'T12'|'T13', pattern text, replacement text)
 
     def loop(self, n):
         return self.loops.setdefault(n, {'label': None, 'invariant': [], 'ensures': [],
@@ -584,6 +585,8 @@ def emit_fn(spec, impl_item, linemap_cb):
                 hit += 1
         if hit != 1:
             raise AnchorLost('T10: %d parameters of type T' % hit)
+    if 'T5name' in rules:
+        sed.replace(toks[it.kw + 1][2], toks[it.kw + 1][3], rules['T5name'][0])
     if arrow is not None:
         sed.insert(toks[arrow + 1][2], '(%s: ' % spec.ret)
         sed.insert(toks[sig_end - 1][3], ')')
@@ -634,6 +637,27 @@ def emit_fn(spec, impl_item, linemap_cb):
             bed.insert(toks[op][3], block(L['body'], '%s#loop%d#bodyprologue' % (spec.name, n), 'hint', None))
         if L['after']:
             bed.insert(toks[cl][3], block(L['after'], '%s#loop%d#epilogue' % (spec.name, n), 'hint', None))
+    # T12 / T13: exact token-sequence rewrites named in the contract
+    for kind, pat, repl in spec.abstracts:
+        ptoks = [t[1] for t in code_tokens(lex(pat))]
+        if not ptoks:
+            raise AnchorLost('%s: empty pattern' % kind)
+        hits = []
+        z = ba + 1
+        while z + len(ptoks) <= bb:
+            if [t[1] for t in toks[z:z + len(ptoks)]] == ptoks:
+                hits.append(z)
+                z += len(ptoks)
+            else:
+                z += 1
+        if kind == 'T12' and len(hits) != 1:
+            raise AnchorLost('T12: expression `%s` occurs %d times in fn %s' % (pat[:60], len(hits), spec.name))
+        if kind == 'T13' and len(hits) < 1:
+            raise AnchorLost('T13: path `%s` does not occur in fn %s' % (pat, spec.name))
+        for z in hits:
+            bed.replace(toks[z][2], toks[z + len(ptoks) - 1][3], repl)
+        info.setdefault('rewrites', []).append({'rule': kind, 'source': pat, 'emitted': repl, 'count': len(hits)})
+        rules.setdefault(kind, [])
     # T4 rename self -> self_
     if 'T4' in rules:
         for z in range(ba + 1, bb):
@@ -641,7 +665,15 @@ def emit_fn(spec, impl_item, linemap_cb):
                 bed.replace(toks[z][2], toks[z][3], 'self_')
     if 'T10' in rules:
         hits = 0
+        for z in range(ba + 1, bb - 8):
+            # `let other = other.borrow();` is the identity rebinding after specialisation: dropped
+            if [t[1] for t in toks[z:z + 9]] == ['let', 'other', '=', 'other', '.', 'borrow', '(', ')', ';']:
+                bed.replace(toks[z][2], toks[z + 8][3], '')
+                info['T10_rebinding_dropped'] = True
+                dropped = range(z, z + 9)
         for z in range(ba + 1, bb - 3):
+            if info.get('T10_rebinding_dropped') and z in dropped:
+                continue
             if (toks[z][1] == 'other' and toks[z + 1][1] == '.' and toks[z + 2][1] == 'borrow'
                     and toks[z + 3][1] == '(' and toks[z + 4][1] == ')'):
                 bed.replace(toks[z + 1][2], toks[z + 4][3], '')
@@ -701,7 +733,7 @@ def emit_fn(spec, impl_item, linemap_cb):
     # self-check: emitted body minus splices, with the rewrite rules undone, equals the source
     info['body_hash_emitted'] = emitted_hash('{' + pro + body + '}', rules)
     info['sig_hash_src'] = tok_hash(toks[sig_a:it.body_open])
-    if not rules.keys() & {'T4', 'T9', 'T10'} and not ndbg:
+    if not rules.keys() & {'T4', 'T9', 'T10', 'T12', 'T13'} and not ndbg:
         if info['body_hash_src'] != info['body_hash_emitted']:
             raise AnchorLost('internal: body hash mismatch for %s' % spec.name)
     return text, info
@@ -775,6 +807,24 @@ def parse_fn_block(lines, start, spec):
                 spec.ret = rest
             elif kw in ('requires', 'ensures', 'decreases'):
                 cur = (kw, tags, [rest], None)
+            elif kw in ('abstract', 'rename'):
+                # abstract <replacement> := <source tokens>      (T12: leaf expression -> stub call)
+                # rename   <source path> => <new path>           (T13: callee re-homed by T5)
+                buf = [rest]
+                while i + 1 < len(lines) and lines[i + 1].strip() and \
+                        split_tags(lines[i + 1].strip().split(None, 1)[0])[0] not in CLAUSE_KW and \
+                        not lines[i + 1].strip().startswith('@@'):
+                    i += 1
+                    buf.append(lines[i].strip())
+                txt = ' '.join(buf)
+                if kw == 'abstract':
+                    repl, _, pat = txt.partition(':=')
+                    spec.abstracts.append(('T12', pat.strip(), repl.strip()))
+                else:
+                    pat, _, repl = txt.partition('=>')
+                    spec.abstracts.append(('T13', pat.strip(), repl.strip()))
+            elif kw == 'fnname':
+                spec.rules['T5name'] = [rest]
             elif kw == 'prologue':
                 buf = []
                 i += 1
